@@ -37,6 +37,12 @@ def cases(tier: str, seed: int) -> List[Dict[str, Any]]:
         p = str(corpus.STDLIB / must)
         if p not in paths:
             paths.append(p)
+    # the repository's own test packages: small, odd on purpose (name clashes, re-exports under module names, cycles)
+    tp = Path(core.repo_dir()) / 'pydoctor' / 'test' / 'testpackages'
+    if tp.is_dir():
+        for d in sorted(tp.iterdir()):
+            if (d / '__init__.py').is_file() and d.name not in ('syntax_error',):
+                paths.append(str(d))
     for p in paths:
         out.append({'part': 'P', 'path': p})
     return out
